@@ -48,9 +48,7 @@ def check(ctx: Ctx):
     ctx.rule("R-WIRE", "MGM2 offers sent over a serialising transport keep each gain attached to its move")
     ctx.rule("R-RESET", "gains, values, offers and commitment flags are cleared at the end of each cycle")
     from .. import reprrules as RR
-    n_ = RR.check_parallel_lists(ctx, "R-WIRE", [f for f in repo.all_functions(repo.module(MGM2)) if f.name == "_simple_repr"])
-    if n_ < 1:
-        raise AnalysisError("R-WIRE: the encoder of Mgm2OfferMessage no longer splits the offers into two lists")
+    RR.check_zipped_pairs(ctx, "R-WIRE", [repo.cls(MGM2, "Mgm2OfferMessage")], min_pairs=1)
 
     # ================================ MGM ======================================
     hg = repo.func(MGM, "MgmComputation._handle_gain_message")
